@@ -270,7 +270,8 @@ def run(ctx):
     nsh = 12 if size > (4 << 20) else 4
     bounds = [size * k // nsh for k in range(nsh + 1)]
     import time
-    deadline = ctx.t0 + (1500 if ctx.quick else 780)  # thorough: stop rendering new programs 13 min after the start
+    # stop rendering new programs 13 min after the start, but give the (G) phase at least 8 min (slow / loaded machines)
+    deadline = max(ctx.t0 + (1500 if ctx.quick else 780), time.time() + 480)
     g_args = [(path, bounds[k], bounds[k + 1], ctx.seed, k + 1, None, deadline) for k in range(nsh)]
     items = corpus_items(ctx)
     # big files first so that the pool stays busy
